@@ -68,6 +68,7 @@ fn run_with<N: Analysis<Main> + Default + 'static>(ops: &[Op], rules: &[usize], 
 where
     N::Data: Clone,
 {
+    fresh_noise(&enc_ops(ops));
     let mut eg: EGraph<Main, N> = EGraph::default();
     let mut tracked: Vec<AppliedId> = Vec::new();
     let mut checkpoints = Vec::new();
@@ -305,9 +306,59 @@ fn gen_cascade(rng: &mut Rng) -> Vec<Op> {
     ops
 }
 
+/// a parent `p = K ∘ a` that uses a class `a` directly *and* through a class `K = {g(a), k(c)}` whose datum depends on `a`:
+/// `a = b` retires `a` (the parent has to be re-canonicalised *and* `K`'s datum changes in the same rebuild, in an order the
+/// hash of the pending shapes decides), then `c = t2` gives `K` a better alternative that does not depend on `b` any more,
+/// then `b = t1` improves `b`: `p` must follow `b` although nothing reaches it through `K`
+fn gen_downgrade(rng: &mut Rng) -> Vec<Op> {
+    let sym = |s: &str| ATerm { v: 16, fields: vec![CField::Lit(s.into())], children: vec![] };
+    let num = |s: &str| ATerm { v: 15, fields: vec![CField::Lit(s.into())], children: vec![] };
+    let h = |a: ATerm| ATerm { v: 13, fields: vec![CField::App], children: vec![a] };
+    let bin = |v: usize, a: ATerm, b: ATerm| ATerm { v, fields: vec![CField::App, CField::App], children: vec![a, b] };
+    let g = |t: ATerm| ATerm { v: 0, fields: vec![CField::Bind(10, Box::new(CField::App))], children: vec![t] };
+    let k = |t: ATerm| ATerm { v: 6, fields: vec![CField::Bind(10, Box::new(CField::App))], children: vec![t] };
+    let chain = |n: usize, leaf: ATerm| (0..n).fold(leaf, |t, _| h(t));
+    let mut terms: Vec<ATerm> = Vec::new();
+    for i in 0..rng.below(6) {
+        terms.push(num(&format!("{}", 7 + i)));
+    }
+    let base = terms.len();
+    let (la, lb, lc) = (rng.range(3, 5), rng.range(1, 2), rng.range(3, 5));
+    let a = chain(la, sym("za"));
+    let b = chain(lb, sym("zb"));
+    let c = chain(lc, sym("zc"));
+    terms.push(a.clone()); // base
+    terms.push(b.clone()); // base + 1
+    terms.push(c.clone()); // base + 2
+    terms.push(sym("t1")); // base + 3
+    terms.push(sym("t2")); // base + 4
+    // more users of b, so that `a = b` keeps b
+    for i in 0..rng.range(2, 3) {
+        terms.push(bin(5, b.clone(), num(&format!("{}", 2 + i))));
+    }
+    let ga = terms.len();
+    terms.push(g(a.clone()));
+    terms.push(k(c.clone()));
+    let op = [4usize, 5, 14][rng.below(3)];
+    let p = if rng.chance(1, 2) { bin(op, g(a.clone()), a.clone()) } else { bin(op, a.clone(), g(a.clone())) };
+    let mut ops: Vec<Op> = terms.into_iter().map(Op::Add).collect();
+    ops.push(Op::Union(ga, ga + 1)); // K = {g(a), k(c)}
+    ops.push(Op::Add(p));
+    ops.push(Op::Union(base, base + 1)); // a = b
+    ops.push(Op::Union(base + 2, base + 4)); // c = t2
+    ops.push(Op::Union(base + 1, base + 3)); // b = t1
+    ops
+}
+
 pub fn run(ctx: &mut Ctx) {
     for _ in 0..ctx.count {
         let mut rng = ctx.rng.fork();
+        if rng.chance(1, 3) {
+            let ops = gen_downgrade(&mut rng);
+            let desc = enc_ops(&ops);
+            emit_kind::<MinSize>(ctx, &ops, &[], 0, |d| d.to_string(), "minsize", &desc);
+            emit_kind::<MinDepth>(ctx, &ops, &[], 0, |d| d.to_string(), "mindepth", &desc);
+        }
         if rng.chance(1, 3) {
             let ops = gen_cascade(&mut rng);
             let desc = enc_ops(&ops);
